@@ -19,7 +19,7 @@
 
 use std::mem::ManuallyDrop;
 use crate::schema::self_referential::__verif_schema_helper::{
-	decimal_bytes_node, decimal_fixed_node, fixed_node, ENUM2,
+	decimal_bytes_node, decimal_fixed_node, fixed_node, ARRAY_OF_LONG, ENUM2,
 };
 
 /// Run one Serializer call against `node` with a fresh configuration and a Vec sink.
